@@ -10,6 +10,7 @@ import (
 	"path/filepath"
 	"sync"
 	"testing"
+	"time"
 
 	golangGrpc "google.golang.org/grpc"
 	"google.golang.org/grpc/codes"
@@ -27,11 +28,12 @@ type grpcCfg struct {
 }
 
 type grpcOp struct {
-	Kind  string `json:"kind"`
-	Grant bool   `json:"grant"`
-	Err   bool   `json:"err"`
+	Kind   string `json:"kind"`
+	Grant  bool   `json:"grant"`
+	Err    bool   `json:"err"`
 	Cls    string `json:"cls"`
 	LeCode string `json:"lecode"`
+	Ctx    string `json:"ctx"` // live | cancelled (while the wrapped call runs) | expired
 }
 
 // grpcRec is the shared recorder of the doubles of one intercepted operation.
@@ -83,9 +85,10 @@ func (l *recLimiter) Acquire(ctx context.Context) (core.Listener, bool) {
 func (l *recLimiter) String() string { return "recLimiter(" + l.name + ")" }
 
 type fakeStream struct {
-	ctx context.Context
-	r   *grpcRec
-	err error
+	ctx    context.Context
+	r      *grpcRec
+	err    error
+	during func()
 }
 
 func (f *fakeStream) SetHeader(metadata.MD) error  { return nil }
@@ -96,12 +99,18 @@ func (f *fakeStream) SendMsg(m interface{}) error {
 	f.r.mu.Lock()
 	f.r.ran++
 	f.r.mu.Unlock()
+	if f.during != nil {
+		f.during()
+	}
 	return f.err
 }
 func (f *fakeStream) RecvMsg(m interface{}) error {
 	f.r.mu.Lock()
 	f.r.ran++
 	f.r.mu.Unlock()
+	if f.during != nil {
+		f.during()
+	}
 	return f.err
 }
 
@@ -197,7 +206,18 @@ func (st *grpcStack) run(op grpcOp) (obs J, err error) {
 	resp := &struct{ x int }{7}
 	var ret error
 	var gotResp interface{}
-	ctx := context.Background()
+	ctx, cancel := context.WithCancel(context.Background())
+	defer cancel()
+	if op.Ctx == "expired" {
+		var c2 context.CancelFunc
+		ctx, c2 = context.WithDeadline(ctx, time.Now().Add(-time.Second))
+		defer c2()
+	}
+	during := func() { // what happens to the context while the wrapped call runs
+		if op.Ctx == "cancelled" {
+			cancel()
+		}
+	}
 	req := op.LeCode
 	switch op.Kind {
 	case "unaryServer":
@@ -205,6 +225,7 @@ func (st *grpcStack) run(op grpcOp) (obs J, err error) {
 			rec.mu.Lock()
 			rec.ran++
 			rec.mu.Unlock()
+			during()
 			return resp, inner
 		})
 	case "unaryClient":
@@ -212,11 +233,12 @@ func (st *grpcStack) run(op grpcOp) (obs J, err error) {
 			rec.mu.Lock()
 			rec.ran++
 			rec.mu.Unlock()
+			during()
 			return inner
 		})
 		gotResp = resp
 	case "recv", "send":
-		ret = st.ss(nil, &fakeStream{ctx: ctx, r: rec, err: inner}, &golangGrpc.StreamServerInfo{FullMethod: "/svc/S"}, func(srv interface{}, ss golangGrpc.ServerStream) error {
+		ret = st.ss(nil, &fakeStream{ctx: ctx, r: rec, err: inner, during: during}, &golangGrpc.StreamServerInfo{FullMethod: "/svc/S"}, func(srv interface{}, ss golangGrpc.ServerStream) error {
 			if op.Kind == "recv" {
 				return ss.RecvMsg(req)
 			}
@@ -297,7 +319,7 @@ func TestGrpcRandom(t *testing.T) {
 			cfg = grpcCfg{Custom: r.chance(1, 2), CustomLE: r.chance(1, 2), Named: r.intn(3)}
 			st = newGrpcStack(cfg)
 		}
-		op := grpcOp{Kind: r.pick(kinds), Grant: r.chance(3, 5), Err: r.chance(1, 2), Cls: r.pick(cls), LeCode: []string{"Unavailable", "Aborted"}[r.intn(2)]}
+		op := grpcOp{Kind: r.pick(kinds), Grant: r.chance(3, 5), Err: r.chance(1, 2), Cls: r.pick(cls), LeCode: []string{"Unavailable", "Aborted"}[r.intn(2)], Ctx: []string{"live", "live", "cancelled", "expired"}[r.intn(4)]}
 		obs, err := st.run(op)
 		if err != nil {
 			obs = J{"asked": []string{}, "ran": -1, "completed": []J{}, "code": err.Error(), "same": false}
